@@ -19,10 +19,42 @@ def get_seams():
     return _SE[0]
 
 
-def setup_side(env, disk_files=None):
-    """Install the seams for one side.  env: plan['hist'] or plan['orac']."""
+def private_dirs(root, env):
+    """The durable state of one simulated machine: a working directory, a
+    temporary directory and a home directory, all private to this side
+    (`root`).  The history side keeps them across invocations and restarts;
+    every oracle evaluation gets empty ones.  Anything the program keeps in a
+    file - wherever the standard places are - is therefore history."""
+    import os
+    import hashlib
+    import tempfile
+    sub = 'cwd'
+    cw = (env.get('environ') or {}).get('_cwd')
+    if cw:
+        # working directories of different depth and spelling
+        sub = os.path.join('cwd', hashlib.sha256(cw.encode()).hexdigest()[:6], os.path.basename(cw) or 'w')
+        S.fired('cwd_perturb')
+    d = dict(cwd=os.path.join(root, sub), tmp=os.path.join(root, 'tmp'), home=os.path.join(root, 'home'))
+    for p in d.values():
+        os.makedirs(p, exist_ok=True)
+    os.chdir(d['cwd'])
+    for k in ('TMPDIR', 'TEMP', 'TMP'):
+        os.environ[k] = d['tmp']
+    os.environ['HOME'] = d['home']
+    os.environ['XDG_CACHE_HOME'] = os.path.join(d['home'], '.cache')
+    os.environ['XDG_CONFIG_HOME'] = os.path.join(d['home'], '.config')
+    os.environ['XDG_DATA_HOME'] = os.path.join(d['home'], '.local', 'share')
+    tempfile.tempdir = None         # forget what the template process resolved
+    S.fired('private_dirs')
+    return d
+
+
+def setup_side(env, disk_files=None, root=None):
+    """Install the seams for one side.  env: plan['hist'] or plan['orac'];
+    root: the private real directory of this side (see private_dirs)."""
     se = get_seams()
-    disk = S.SimDisk(disk_files)
+    dirs = private_dirs(root, env) if root else None
+    disk = S.SimDisk(disk_files, root=dirs['cwd'] if dirs else None)
     se.install(clock_spec=env['clock'], hash_spec=env['hash'], disk=disk)
     S._TAP.install()        # one stdout/stderr replacement for the life of this process
     S.hold_junk(*env['junk'])
@@ -44,11 +76,15 @@ def setup_side(env, disk_files=None):
         import os
         for k, v in pe.items():
             if k == '_cwd':
+                if dirs:
+                    continue
                 try:
                     os.chdir(v)
                     S.fired('cwd_perturb')
                 except OSError:
                     pass
+            elif dirs and k in ('HOME', 'TMPDIR'):
+                continue
             else:
                 os.environ[k] = v
         S.fired('env_perturb')
@@ -919,12 +955,12 @@ def digest_sections(sec):
 
 # ------------------------------------------------------------------- history
 
-def run_history(plan, start=0, disk_files=None, positions=None, apistates=None):
+def run_history(plan, start=0, disk_files=None, positions=None, apistates=None, root=None):
     """Execute the history side from schedule index `start` until the end or
     a RESTART.  Returns a picklable result."""
     S.reset_faults()
     env = plan['hist']
-    se = setup_side(env, disk_files if disk_files is not None else plan.get('disk'))
+    se = setup_side(env, disk_files if disk_files is not None else plan.get('disk'), root)
     tasks = plan['tasks']
     rts = []
     for i, t in enumerate(tasks):
